@@ -41,16 +41,20 @@ theorem C04_same_id (s : State) (k c : Nat) (h : String) (hr : s.renderer = .inv
 
 /-- an unsubscribed extension is not released by the dispatch, so its parked `next` stays parked
     (`wakeAgent` needs the flag) -/
-theorem C04_unsubscribed_stay_parked (s : State) (hf : ∀ a ∈ s.agents, a.parked > 0 → a.flag = false) :
-    wakeAgent s = none := by
-  unfold wakeAgent
-  have : s.agents.find? (fun a => decide (a.parked > 0) && a.flag) = none := by
+theorem C04_unsubscribed_stay_parked (lifo : Bool) (s : State) (hf : ∀ a ∈ s.agents, a.parked > 0 → a.flag = false) :
+    wakeAgent lifo s = none := by
+  unfold wakeAgent pickAgent
+  have hp : ∀ l : List Agent, (∀ a ∈ l, a.parked > 0 → a.flag = false) →
+      l.find? (fun a => decide (a.parked > 0) && a.flag) = none := by
+    intro l hl
     apply List.find?_eq_none.mpr
     intro a ha
     by_cases hp : a.parked > 0
-    · simp [hf a ha hp]
+    · simp [hl a ha hp]
     · simp [hp]
-  simp [this]
+  have h1 := hp s.agents hf
+  have h2 := hp s.agents.reverse (fun a ha => hf a (List.mem_reverse.mp ha))
+  cases lifo <;> simp [h1, h2]
 
 /-- **Completion barrier.** The handler reports the invocation complete only by passing, in this
     order: the runtime-response gate (the runtime posted its response), the runtime-ready gate (it
